@@ -548,6 +548,9 @@ func (msc *MinerSmartContract) payShardersAndDelegates(
 	balances cstate.StateContextI,
 ) error {
 	n := int64(len(rewardSharders))
+	if n == 0 {
+		return nil // no sharder to reward (none of the live sharders is in the magic block)
+	}
 	sharderShare, totalCoinLeft, err := currency.DistributeCoin(reward, n)
 	if err != nil {
 		return err
